@@ -145,7 +145,10 @@ impl DocSpec {
             0u8..14,
             0u8..5,
             -3i8..4,
-            prop::collection::vec(0u8..6, 0..4),
+            // mostly a tiny tag universe (collisions); one document in seven carries many tags of a
+            // wide one, so that the array index spreads over several 96-byte buckets and later
+            // documents append to postings that live in an OLDER bucket (seeded change C02-4)
+            prop_oneof![6 => prop::collection::vec(0u8..6, 0..4), 1 => prop::collection::vec(0u8..48, 8..24)],
             prop::option::of(0u8..5),
             prop::collection::vec(0u8..8, 0..3),
             prop::collection::vec((0u8..5, 0u8..3), 0..3),
